@@ -23,7 +23,7 @@ PLAN = dict(
     tiers=dict(
         quick=[det("rel", H, "cs-rel", 16, 600, 5, tso=True, time_cap=22),
                det("dbg", H, "cs-dbg", 16, 250, 5, tso=True, time_cap=14),
-               tsan("C12", 4, 80)],
+               tsan("C12", 8, 240)],
         thorough=[det("rel", H, "cs-rel", 16, 6000, 6, tso=True, time_cap=280),
                   det("dbg", H, "cs-dbg", 16, 2000, 6, tso=True, time_cap=160),
                   det("enum-conflict", H, "cs-rel", 16, 200, 2, tso=True, time_cap=90, enum="conflict", enum_cap=200),
